@@ -152,8 +152,9 @@ class C02Checker(Checker):
         self.local_iters = 0
         self.n_checked = 0
 
-    def _check_ind(self, run, d, ind, where: str):
+    def _check_ind(self, run, d, ind, where: str, level: int | None = None):
         f = ind.fitness
+        level = d.level if level is None else level
         self.n_checked += 1
         if f is None or (isinstance(f, float) and math.isnan(f)) or (not isinstance(f, float) and np.isnan(f)):
             self.fail(f"unevaluated-stored/{type(d).__name__}", f"individual without fitness stored in {where}")
@@ -161,7 +162,7 @@ class C02Checker(Checker):
         truth = self.pure(np.array(ind.genome, dtype=float, copy=True))
         if f == truth:
             return
-        if f == self.worst and cutoff_exhausted(run, d.level):
+        if f == self.worst and cutoff_exhausted(run, level):
             self.sentinels += 1
             return
         self.fail(
@@ -180,8 +181,10 @@ class C02Checker(Checker):
                     old = self.digests.get(key)
                     if old is None:
                         self.digests[key] = dg
+                        # a local deme's initial "population" is its seed, an individual of the parent
+                        lvl = max(0, d.level - 1) if (type(d).__name__ == "LocalDeme" and mi == 0) else d.level
                         for ind in g:
-                            self._check_ind(run, d, ind, f"{type(d).__name__} {d.id} history[{mi}][{gi}]")
+                            self._check_ind(run, d, ind, f"{type(d).__name__} {d.id} history[{mi}][{gi}]", level=lvl)
                         if type(d).__name__ == "LocalDeme" and mi >= 1:
                             self.local_iters = max(self.local_iters, len(g))
                     elif old != dg:
@@ -192,7 +195,8 @@ class C02Checker(Checker):
                         )
             s = d._sprout_seed
             if s is not None:
-                self._check_ind(run, d, s, f"sprout seed of {type(d).__name__} {d.id}")
+                # the seed is an individual of the parent: it was evaluated through the parent level's problem
+                self._check_ind(run, d, s, f"sprout seed of {type(d).__name__} {d.id}", level=max(0, d.level - 1))
         b = tree.best_individual
         if b is not None:
             self._check_ind(run, tree.root, b, "tree.best_individual")
